@@ -253,24 +253,30 @@ class ScriptApp:
         try:
             await self._run(inst, program, receive, send)
         except AppCrash:
-            inst.outcome = "raised:AppCrash"
-            inst.t_end = w.now()
+            if not w.finished:
+                inst.outcome = "raised:AppCrash"
+                inst.t_end = w.now()
             raise
         except w.cancelled_exc:
-            inst.outcome = "cancelled"
-            inst.t_end = w.now()
+            if not w.finished:
+                inst.outcome = "cancelled"
+                inst.t_end = w.now()
             raise
         except BaseException as e:  # an exception the server threw into the app (send raised...)
-            inst.outcome = f"raised:{type(e).__name__}"
-            inst.t_end = w.now()
+            if not w.finished:
+                inst.outcome = f"raised:{type(e).__name__}"
+                inst.t_end = w.now()
             raise
         else:
-            inst.outcome = "returned"
-            inst.t_end = w.now()
+            if not w.finished:
+                inst.outcome = "returned"
+                inst.t_end = w.now()
 
     async def _recv(self, inst: Instance, receive: Callable) -> dict:
         w = self.world
         m = await receive()
+        if w.finished:
+            return m
         inst.received.append(m)
         inst.log.append((w.now(), "recv", m))
         return m
@@ -282,14 +288,18 @@ class ScriptApp:
         try:
             await send(dict(msg))
         except w.cancelled_exc:
-            rec[1] = w.now()
-            rec[3] = "cancelled"
+            if not w.finished:
+                rec[1] = w.now()
+                rec[3] = "cancelled"
             raise
         except Exception as e:
-            rec[1] = w.now()
-            rec[3] = type(e).__name__
-            inst.log.append((w.now(), "send_raised", type(e).__name__))
+            if not w.finished:
+                rec[1] = w.now()
+                rec[3] = type(e).__name__
+                inst.log.append((w.now(), "send_raised", type(e).__name__))
             return type(e).__name__
+        if w.finished:
+            return None
         rec[1] = w.now()
         rec[3] = "ok"
         inst.log.append((w.now(), "sent", msg.get("type")))
@@ -381,6 +391,7 @@ class WorldBase:
         self.serve_done_at: Optional[float] = None
         self.shutdown_at: Optional[float] = None
         self.events_log: List[tuple] = []
+        self.finished = False  # set at final quiescence: nothing is recorded during teardown
 
     # --- to be provided by engines
     def now(self) -> float:
